@@ -1768,7 +1768,13 @@ static WBXMLError parse_entity(WBXMLParser *parser, WBXMLBuffer **result)
         WB_UTINY entity[7] = {0, 0, 0, 0, 0, 0, 0};
 
         int index = 5;
-        while (code >= 0x40)
+
+        /* The lead byte that goes with (5 - index) continuation bytes only has
+         * room for (index + 1) bits: 5 bits in a 2 byte sequence, 4 in a
+         * 3 byte sequence, ... 1 in a 6 byte sequence. Keep on emitting
+         * continuation bytes until what is left of the code fits.
+         */
+        while (code >= (WB_ULONG)(0x40 >> (5 - index)))
         {
             entity[index] = 0x80 | (code & 0x3F);
             code >>= 6; index--;
